@@ -243,18 +243,28 @@ func (rs *bodyStream) skipRest() error {
 		}
 
 		strCRLFLen := len(bytestr.StrCRLF)
+		// the handler may have stopped reading in the middle of a chunk:
+		// the rest of that chunk is data, not chunk framing
+		skipChunkLeft := rs.chunkLeft > 0
 		for {
-			chunkSize, err := utils.ParseChunkSize(rs.reader)
-			if err != nil {
-				return err
-			}
+			chunkSize := rs.chunkLeft
+			if !skipChunkLeft {
+				var err error
+				chunkSize, err = utils.ParseChunkSize(rs.reader)
+				if err != nil {
+					return err
+				}
 
-			if chunkSize == 0 {
-				rs.chunkEOF = true
-				return SkipTrailer(rs.reader)
+				if chunkSize == 0 {
+					rs.chunkEOF = true
+					return SkipTrailer(rs.reader)
+				}
 			}
+			skipChunkLeft = false
+			rs.chunkLeft = 0
 
-			err = rs.reader.Skip(chunkSize)
+			// the chunk is not necessarily buffered yet
+			err := skipBytes(rs.reader, chunkSize)
 			if err != nil {
 				return err
 			}
@@ -326,6 +336,32 @@ func (rs *bodyStream) skipRest() error {
 // Error of skipRest may be returned if there is one.
 //
 // NOTE: Be careful to use this method unless you know what it's for.
+// skipBytes discards the next n bytes of r, reading them from the
+// connection first if they are not buffered yet.
+func skipBytes(r network.Reader, n int) error {
+	for n > 0 {
+		skip := r.Len()
+		if skip == 0 {
+			_, err := r.Peek(1)
+			if err != nil {
+				return err
+			}
+			skip = r.Len()
+		}
+		if skip > n {
+			skip = n
+		}
+		if err := r.Skip(skip); err != nil {
+			return err
+		}
+		if err := r.Release(); err != nil {
+			return err
+		}
+		n -= skip
+	}
+	return nil
+}
+
 func ReleaseBodyStream(requestReader io.Reader) (err error) {
 	if rs, ok := requestReader.(*bodyStream); ok {
 		err = rs.skipRest()
